@@ -62,6 +62,49 @@ pub fn gen_c08(rng: &mut Rng, n: usize, out: &mut Vec<String>) {
                 }
             }
         }
+        if it % 4 == 2 {
+            // the whole path of a text through the REAL broker (didOpen / didChange batches / didClose / reopen,
+            // two documents), probed after every step: the server's copy must be the client's, byte for byte
+            // (CRLF and lone CR kept, a range-less change with EMPTY text clears the document, ...)
+            let hx = |t: &str| if t.is_empty() { "-".to_string() } else { hex_str(t) };
+            let mut toks: Vec<String> = vec![];
+            let mut cur: [Option<String>; 2] = [None, None];
+            for _ in 0..rng.range(2, 7) {
+                let u = rng.below(2);
+                match (cur[u].is_some(), rng.below(8)) {
+                    (false, _) | (true, 0) => {
+                        let t = if rng.chance(1, 6) { String::new() } else { gen_doc_text(rng, 16) };
+                        toks.push(format!("O{}={}", u, hx(&t)));
+                        cur[u] = Some(t);
+                    }
+                    (true, 1) => {
+                        toks.push(format!("X{}", u));
+                        cur[u] = None;
+                    }
+                    (true, _) => {
+                        // the generator only tracks a rough client text to aim positions; the Lean model judges
+                        let base = cur[u].clone().unwrap_or_default();
+                        let mut cs = vec![];
+                        for _ in 0..rng.range(1, 4) {
+                            if rng.chance(1, 6) {
+                                // range-less: replace everything (also by nothing)
+                                let t = if rng.chance(1, 2) { String::new() } else { gen_doc_text(rng, 6) };
+                                cs.push(format!("F:{}", hx(&t)));
+                            } else {
+                                let a = gen_pos(rng, &base);
+                                let b = if rng.chance(1, 3) { a } else { gen_pos(rng, &base) };
+                                let (s0, e0) = if a <= b { (a, b) } else { (b, a) };
+                                let ins = gen_doc_text(rng, 4);
+                                cs.push(format!("R:{}:{}:{}:{}:{}", s0.0, s0.1, e0.0, e0.1, hx(&ins)));
+                            }
+                        }
+                        toks.push(format!("C{}={}", u, cs.join(",")));
+                    }
+                }
+                toks.push(format!("P{}", u));
+            }
+            out.push(format!("SPECDOCTEXT 0 {}", toks.join(" ")));
+        }
         let text = gen_doc_text(rng, 24);
         let h = hex_str(&text);
         for _ in 0..3 {
